@@ -10,7 +10,8 @@
    This file gives every iteration a status
      OrderFree why     : the visiting order cannot reach the encoded bytes, for the reason given (with the theorem of
                          Proofs/DetermProofs.v that carries it, where there is one);
-     OrderDependent k  : the visiting order reaches the encoded bytes; k is the known-finding class (D11 = 11);
+     OrderDependent k  : the visiting order reaches the encoded bytes; k is the known-finding class (none today; D11 = 11
+                         was ModuleTypes::new before its repair);
      OffPath why       : the iteration is not executed by Module::encode (argument by reading);
    and repeats the declaration list and the (empty) list of other sources.  Proofs/DetermProofs.v proves by
    vm_compute that the three lists here are exactly the generated ones: a new HashMap iteration, a new hash-typed
@@ -35,15 +36,17 @@ Definition hash_site_status : list (hsite * hstatus) := [
       OrderFree "inner map of resolve_on_end: keys Before / After write to different lists of the instruction (before / after); any visiting order gives the same flags: DetermProofs.ron_modes_commute, ron_entries_permutation (the flag field current_mode, which does depend on the order, is not read by the encoder: mod.rs:1597 binds it to _current_mode)");
   (mkHS "src/ir/module/module_types.rs" "ModuleTypes::iter" "self.types" "values" 1,
       OffPath "public accessor returning the values in hash order; no caller inside src/ (only tests): not on the encode path.  A *caller* that acts on this order is outside the property as checked");
-  (mkHS "src/ir/module/module_types.rs" "ModuleTypes::new" "types" "iter" 1,
-      OrderDependent 11)
+  (mkHS "src/ir/module/module_types.rs" "ModuleTypes::new" "ids" "for" 1,
+      OrderFree "false positive of the syntactic taint: `ids` is the Vec<TypeID> of collected keys *after* `ids.sort_unstable()`; the insertions into types_map happen in ascending id order");
+  (mkHS "src/ir/module/module_types.rs" "ModuleTypes::new" "types" "keys" 1,
+      OrderFree "the keys are collected into a Vec and sorted before they are used: every visiting order gives the same sorted list (DetermProofs.sort_ids_canonical) and hence the same types_map (DetermProofs.types_map_order); this was the order-dependent iteration of D11 before the repair")
 ].
 
 (* Every hash-typed declaration, reviewed: the three id maps (func_mapping / global_mapping / memory_mapping, built by
    get_mapping_generic and handed down by reference) and the side-effect map appear in *no* iteration site above --
    they are only looked up (`mapping.get(..)`, `.entry(..)`) or returned; resolve_on_end is only indexed by key
    (`entry`, `remove`), its inner maps are the `to_resolve` site; `types` / `types_map` of ModuleTypes: see the
-   ModuleTypes::new site; parse_internal's `types` is moved into ModuleTypes::new. *)
+   ModuleTypes::new sites; parse_internal's `types` is moved into ModuleTypes::new. *)
 Definition hash_decls_reviewed : list (string * string * string * string) := [
     ("src/ir/module/mod.rs", "fn Module::encode_internal", "<return>", "(wasm_encoder::Module,HashMap<InjectType,Vec<Injection<'a>>>,)")
   ; ("src/ir/module/mod.rs", "fn Module::encode_internal", "side_effects", "HashMap::new()")
